@@ -85,18 +85,18 @@ func (s *State) clone() *State {
 }
 
 type Obligation struct {
-	Name    string
-	Kind    string
-	Fn      string
-	Props   []string
-	Reach   string
-	Goal    string
-	Clause  *Clause
-	Reveal  []string
-	Expect  string // "unsat" normally; "sat" for vacuity covers
-	Result  SolveResult
-	Query   string
-	Known   string // known-finding id that excludes a class
+	Name   string
+	Kind   string
+	Fn     string
+	Props  []string
+	Reach  string
+	Goal   string
+	Clause *Clause
+	Reveal []string
+	Expect string // "unsat" normally; "sat" for vacuity covers
+	Result SolveResult
+	Query  string
+	Known  string // known-finding id that excludes a class
 }
 
 type loopInfo struct {
@@ -107,22 +107,22 @@ type loopInfo struct {
 }
 
 type Frame struct {
-	fn      *ssa.Function
-	vals    map[ssa.Value]Val
-	free    map[*ssa.FreeVar]Val
-	rets    []retInfo
-	con     *FuncContract
-	depth   int
-	loops   map[*ssa.BasicBlock]*loopInfo
-	entry   *State // state at function entry (for old())
-	params  map[string]CV
-	inlined bool
-	parent  *Frame
+	fn       *ssa.Function
+	vals     map[ssa.Value]Val
+	free     map[*ssa.FreeVar]Val
+	rets     []retInfo
+	con      *FuncContract
+	depth    int
+	loops    map[*ssa.BasicBlock]*loopInfo
+	entry    *State // state at function entry (for old())
+	params   map[string]CV
+	inlined  bool
+	parent   *Frame
 	envCells map[string]interface{} // closure verified on its own: variables of the enclosing function captured by sibling closures
 	envTypes map[string]types.Type
 	sibClos  map[interface{}]*Closure // ... and the sibling closures reachable through captured function variables
-	defers  []*ssa.Defer
-	namePfx string
+	defers   []*ssa.Defer
+	namePfx  string
 	edgeCond map[edgeKey]string
 }
 
@@ -132,39 +132,40 @@ type retInfo struct {
 }
 
 type Gen struct {
-	P        *Program
-	mode     Mode
-	sc       *Script
-	fresh    int
-	fn       *ssa.Function
-	con      *FuncContract
-	obls     []*Obligation
-	notes    map[string]bool
-	strLits  map[string]string
-	strLitVal map[string]string
-	universe map[string]string // heap key -> sort
-	uniGrew  bool
-	heapInit map[string]string
-	specMode bool
-	specDone map[string]bool
-	specBusy map[string]bool
-	callSeq  map[string]int
-	topFrame *Frame
-	loopBack map[string][]string // per loop under contract: reachability of its back edges (vacuity cover)
-	setHits  map[*AnchorSet]bool  // ghost updates that fired at least once (an anchor that never binds is reported)
-	inputs   []InputVar
-	opaque   map[string]bool
-	boxes    map[string]bool
+	stableAssume  func(*State) // see FuncContract.StableAssumes
+	P             *Program
+	mode          Mode
+	sc            *Script
+	fresh         int
+	fn            *ssa.Function
+	con           *FuncContract
+	obls          []*Obligation
+	notes         map[string]bool
+	strLits       map[string]string
+	strLitVal     map[string]string
+	universe      map[string]string // heap key -> sort
+	uniGrew       bool
+	heapInit      map[string]string
+	specMode      bool
+	specDone      map[string]bool
+	specBusy      map[string]bool
+	callSeq       map[string]int
+	topFrame      *Frame
+	loopBack      map[string][]string // per loop under contract: reachability of its back edges (vacuity cover)
+	setHits       map[*AnchorSet]bool // ghost updates that fired at least once (an anchor that never binds is reported)
+	inputs        []InputVar
+	opaque        map[string]bool
+	boxes         map[string]bool
 	usedContracts map[string]*FuncContract
-	ghostT   map[string]string
-	ghostGoT map[string]types.Type
-	ghostElemGoT map[string]types.Type
-	keyType  map[string]types.Type
-	specRec  map[string]bool
-	specSrc  map[string]*types.Func
-	frames   []*Frame
-	lemmaKey string
-	frameGuard string
+	ghostT        map[string]string
+	ghostGoT      map[string]types.Type
+	ghostElemGoT  map[string]types.Type
+	keyType       map[string]types.Type
+	specRec       map[string]bool
+	specSrc       map[string]*types.Func
+	frames        []*Frame
+	lemmaKey      string
+	frameGuard    string
 }
 
 type InputVar struct {
@@ -446,6 +447,9 @@ func (g *Gen) havocAllHeap(st *State, explicit ...map[string]bool) {
 		}
 		st.heap[k] = g.freshConst("hv_"+k, g.universe[k])
 		g.heapWF(st.heap[k], k, st.top)
+	}
+	if g.stableAssume != nil {
+		g.stableAssume(st)
 	}
 }
 
@@ -1035,6 +1039,9 @@ func (g *Gen) loopHead(fr *Frame, st *State, li *loopInfo) {
 			}
 			st.heap[k] = g.freshConst("lh_"+k, srt)
 			g.heapWF(st.heap[k], k, st.top)
+		}
+		if g.stableAssume != nil {
+			g.stableAssume(st)
 		}
 	}
 	if lc != nil {
